@@ -344,7 +344,7 @@ class RulesSuite(Suite):
                 'queries': self.gen_queries(rng, roots, hostile)}
 
     def generate(self, rng, tier):
-        n = 700 if tier == 'quick' else 30000
+        n = 700 if tier == 'quick' else 20000
         out = []
         for k in range(n):
             hostile = (k % 4 == 3)
